@@ -208,6 +208,87 @@ pub fn run_case(case: &Case, files: &[Vec<u8>]) -> Result<usize, String> {
     }
 }
 
+/// Larger merges: sources with many data blocks and cut index blocks (600-byte keys), streamed
+/// and written into a destination whose own index blocks are cut.
+#[derive(Clone, Debug, Serialize, Deserialize)]
+pub struct BigCase {
+    pub sources: usize,
+    pub n: usize,
+    pub src_levels: u8,
+    pub dst_levels: u8,
+    pub mf: u8,
+}
+
+pub fn run_big(c: &BigCase) -> Result<usize, String> {
+    let r = guarded(|| -> Result<usize, String> {
+        let key = |i: usize| {
+            let mut k = (i as u16).to_be_bytes().to_vec();
+            k.resize(600, 0x51);
+            k
+        };
+        let mut files = Vec::new();
+        let mut model: std::collections::BTreeMap<Vec<u8>, Vec<Vec<u8>>> = Default::default();
+        for s in 0..c.sources {
+            let entries: Vec<Entry> = (0..c.n).filter(|i| (i + s) % 3 != 0).map(|i| (key(i), value(s, i % 4, 3 + s))).collect();
+            for (k, v) in &entries {
+                model.entry(k.clone()).or_default().push(v.clone());
+            }
+            files.push(write_file(&FileCfg::layout(Some(1024), Some(2), c.src_levels), &entries)?);
+        }
+        let want: Vec<Entry> = model.iter().map(|(k, vs)| (k.clone(), model_merge(c.mf, vs))).collect();
+        let want_calls: Vec<Call> = model.iter().map(|(k, vs)| (k.clone(), vs.clone())).collect();
+        let open_all = || -> Result<Vec<ReaderCursor<Cursor<&[u8]>>>, String> {
+            files.iter().map(|f| Reader::new(Cursor::new(f.as_slice())).and_then(|r| r.into_cursor()).map_err(|e| e.to_string())).collect()
+        };
+        let mf = Recording { mode: c.mf, calls: RefCell::new(Vec::new()) };
+        let mut b = Merger::builder(&mf);
+        b.extend(open_all()?);
+        let mut it = b.build().into_stream_merger_iter().map_err(|e| e.to_string())?;
+        let mut out: Vec<Entry> = Vec::new();
+        while let Some((k, v)) = it.next().map_err(|e| e.to_string())? {
+            out.push((k.to_vec(), v.to_vec()));
+            if out.len() > want.len() + 8 {
+                return Err("merger does not terminate".into());
+            }
+        }
+        if out != want {
+            return Err(format!("streamed output ({} entries) differs from the union map ({} entries)", out.len(), want.len()));
+        }
+        check_calls(&mf.calls.borrow(), &want_calls)?;
+        let mf2 = Recording { mode: c.mf, calls: RefCell::new(Vec::new()) };
+        let mut b = Merger::builder(&mf2);
+        b.extend(open_all()?);
+        let mut w = writer_builder(&FileCfg::layout(Some(1024), Some(2), c.dst_levels)).memory();
+        b.build().write_into_stream_writer(&mut w).map_err(|e| format!("write_into_stream_writer: {e}"))?;
+        let bytes = w.into_inner().map_err(|e| e.to_string())?;
+        let back = crate::query::run_query(&bytes, &crate::query::Query::Scan { rev: false, mode: crate::query::CursorMode::Fresh })?;
+        if back != want {
+            return Err(format!("file produced by write_into_stream_writer (index_levels {}) differs from the union map", c.dst_levels));
+        }
+        Ok(want_calls.iter().filter(|c| c.1.len() >= 2).count())
+    });
+    match r {
+        Ok(x) => x,
+        Err(p) => Err(p),
+    }
+}
+
+pub fn big_cases() -> Vec<BigCase> {
+    let mut v = Vec::new();
+    for sources in [2usize, 3] {
+        for n in [30usize, 70] {
+            for src_levels in [0u8, 2, 3] {
+                for dst_levels in [2u8, 3] {
+                    for mf in [0u8, 1] {
+                        v.push(BigCase { sources, n, src_levels, dst_levels, mf });
+                    }
+                }
+            }
+        }
+    }
+    v
+}
+
 pub fn run(tier: Tier) -> i32 {
     let mut rep = Report::new("C06", tier, "model_checking");
     let files = build_files();
@@ -262,14 +343,52 @@ pub fn run(tier: Tier) -> i32 {
             }
         }
     });
+    let bigs = big_cases();
+    let a2 = par_for(bigs.len(), 1, &deadline, |i, acc: &mut Acc| {
+        let c = &bigs[i];
+        acc.evaluations += 1;
+        acc.states += 1;
+        match run_big(c) {
+            Ok(shared) => {
+                acc.transitions += 2;
+                acc.nontrivial += 1;
+                acc.hist("ok_big_merge");
+                acc.max("big_merge_shared_keys", shared as u64);
+            }
+            Err(msg) => {
+                acc.hist("violation");
+                acc.violation(Violation {
+                    signature: format!("big;{}", serde_json::to_string(c).unwrap()),
+                    summary: format!("C06: {}: {msg}", serde_json::to_string(c).unwrap()),
+                    case: json!({"kind": "big_merge", "case": c}),
+                });
+            }
+        }
+    });
+    let mut acc = acc;
+    acc.merge(a2);
     rep.acc = acc;
-    rep.set("rule", json!("E2: all k in 0..=K source lists, each source an arbitrary subset of the 4-key universe {'', 40, 4000, 80} (empty sources included) written with one of 3 file configurations (default; 700-byte values + index_levels 2 so a source crosses blocks between entries; Snappy) — all combinations — x 2 merge functions (recording concatenation returning a lone value unchanged / Cow::Owned otherwise; Cow::Borrowed first value); sources added through add/push/extend; oracle: streamed output = union map, the recorded merge-call log = one call per key with the values in source-addition order, and write_into_stream_writer + read-back = the same content; distinct_nontrivial = cases where some key is held by >= 2 sources"));
+    rep.set("rule", json!("E2: all k in 0..=K source lists, each source an arbitrary subset of the 4-key universe {'', 40, 4000, 80} (empty sources included) written with one of 3 file configurations (default; 700-byte values + index_levels 2 so a source crosses blocks between entries; Snappy) — all combinations — x 2 merge functions (recording concatenation returning a lone value unchanged / Cow::Owned otherwise; Cow::Borrowed first value); sources added through add/push/extend; oracle: streamed output = union map, the recorded merge-call log = one call per key with the values in source-addition order, and write_into_stream_writer + read-back = the same content; plus larger merges (2-3 sources of 30/70 entries with 600-byte keys, source and destination index_levels up to 3 with cut index blocks); distinct_nontrivial = cases where some key is held by >= 2 sources"));
     rep.set("bound", json!({"max_sources": maxk, "cases": total}));
     rep.assume("the merger cannot inspect the merge function, so the recorded call log (key, ordered values, call count) determines the output for every deterministic merge function");
     rep.finish()
 }
 
 pub fn replay(case: &serde_json::Value) -> i32 {
+    if case["kind"] == "big_merge" {
+        let c: BigCase = serde_json::from_value(case["case"].clone()).expect("bad replay: case");
+        return match run_big(&c) {
+            Ok(n) => {
+                println!("replay: big merge matches the union map ({n} shared keys)");
+                0
+            }
+            Err(e) => {
+                println!("{e}");
+                println!("VIOLATION property=C06 replay=(replayed)");
+                1
+            }
+        };
+    }
     let c: Case = serde_json::from_value(case["case"].clone()).expect("bad replay: case");
     let files = build_files();
     match run_case(&c, &files) {
